@@ -122,7 +122,7 @@ def instances(t, owner=None, depth=0):
             return []
     if o is tuple or t is tuple:
         if not args:
-            return [(1, "s"), ()]
+            return [()] if o is tuple else [(1, "s"), ()]  # Tuple[()] has no arguments but an origin
         if len(args) == 2 and args[1] is Ellipsis:
             el = instances(args[0], owner, depth + 1) or [None]
             return [tuple(el[:2]), ()]
